@@ -290,7 +290,7 @@ def rule_callback(ctx, sig, body, arg):
         body = body[:s] + rep + body[e:]
     if re.search(r'\bprogress_callback\b', ' '.join(t.text for t in code_tokens(tokenize(body)))):
         raise RuleError('progress_callback still present after rewriting')
-    return sig, body
+    return sig2, body
 
 
 def rule_forloop(ctx, sig, body, arg):
@@ -323,7 +323,7 @@ def rule_forloop(ctx, sig, body, arg):
     expr = body[ct[j].end:ct[k].pos].strip()
     close = match_close(ct, k)
     inner = body[ct[k].end:ct[close].pos]
-    it = f'it__{occ}'
+    it = 'it__%d' % (len(re.findall(r'let mut it__\d+', body)) + 1)
     new = (f'let mut {it} = {expr};\n        loop {{\n            let {pat} = match {it}.next() '
            f'{{ Some(v__) => v__, None => break }};{inner}}}')
     ctx.note('R-for', norm_ws(body[ct[i].pos:ct[k].end]), norm_ws(new[:new.index(inner)] if inner in new else new))
